@@ -1,5 +1,5 @@
 """property id -> rules, explanation of what is / is not decided"""
-from rules import r_coord, r_keyid, r_opcode, r_doaction, r_cancel, r_idle, r_loop, r_traverse, r_repeat, r_chv2, r_wait, r_macro
+from rules import r_coord, r_keyid, r_opcode, r_doaction, r_cancel, r_idle, r_loop, r_traverse, r_repeat, r_chv2, r_wait, r_macro, r_seq
 
 PROPS = {
     "C01": {
@@ -79,6 +79,16 @@ PROPS = {
                        "(find_chords_coords, fill_chords) pass every nested action of every Action variant — derived from the "
                        "Action type — to their recursive call, so a chord key is found wherever the grammar allows an action.",
         "not_decided": "exact-set activation, press-order independence, decomposition order, v2 candidate search — run-time values",
+    },
+    "C12": {
+        "rules": [r_seq.run_all],
+        "explanation": "Decides: (R-SEQ-CONFLICT) the only Trie::insert of the sequence table is dominated by ancestor_exists and "
+                       "descendant_exists on the same key sequence, each with its true edge leading away from the insert; "
+                       "(R-SEQ-BITS) key-code / modifier / overlap bit fields are disjoint and every modifier mask is a distinct "
+                       "single bit; (R-SEQ-RESET) SequenceState::activate writes every field of the state; (R-SEQ-NORM) the keys the "
+                       "run time merges (right->left modifiers) carry equal modifier bits in the parser's encoding; "
+                       "(R-SEQ-SUPPRESS) typed keys are pressed at the OS only in visible-backspaced mode / outside sequence mode.",
+        "not_decided": "exactly-once firing, backtracking, timeout boundary, permutations of overlap groups — run-time values",
     },
     "C14": {
         "rules": [r_traverse.run_repeat, r_repeat.run_outputs, r_repeat.run],
